@@ -201,6 +201,7 @@ def parse_cex(tlc_out):
 
 
 NO_QUANTUM = {'Ret', 'LXG', 'LSG', 'Exit', 'Grant'}
+RESTART = {('LCas', 'LLoad'), ('UpCas', 'UpLoad'), ('TCas', 'TLoad'), ('PCas', 'P2')}
 
 
 def cex_to_program(cls, steps):
@@ -216,6 +217,7 @@ def cex_to_program(cls, steps):
         return g[0]
     pre = {'S': 's', 'SIX': 'i', 'X': 'x'}
     leftovers = {}
+    prev_act = {}
     for act, args in steps:
         if not args:
             continue
@@ -265,11 +267,16 @@ def cex_to_program(cls, steps):
             og[t] = ('c', k)
             cur[t] = ('C', k)
             ops.append('PR:c%d:1' % k)
-        elif act == 'SetVersion':
+        elif act in ('SetVersion', 'CallSetVersion'):
             m, k = cur[t]
             nums = re.findall(r'-?\d+', ','.join(args[1:]))
             v = int(nums[0]) * 65536 + int(nums[1]) if len(nums) >= 2 else 0
             ops.append('SV:x%d:%d' % (k, v))
+        # a loop iteration that failed (CAS lost, test not met) passes the spin hint - one more quantum - before the
+        # loop head runs again
+        if (prev_act.get(t), act) in RESTART:
+            sched.append(t)
+        prev_act[t] = act
         if act not in NO_QUANTUM:
             sched.append(t)
     n = max(ths) if ths else 0
@@ -510,7 +517,7 @@ def epoch_l2_stream(ex):
     """Steps of one real execution in EpochImpl's vocabulary.  Returns (events, ok); ok False when the execution
     uses something the Level-2 model does not describe (then it is skipped, not rejected)."""
     evs = [e for e in ex.events if e.get('t', 0) > 0]
-    if ex.status != 'ok' or any(e.get('e') in ('uaf', 'doublefree') or e.get('freed') == 1 for e in ex.events):
+    if ex.status != 'ok' or any(e.get('e') in ('uaf', 'doublefree', 'give') or e.get('freed') == 1 for e in ex.events):
         return [], False
     ecap = 256
     ncap = None
@@ -760,3 +767,186 @@ def epoch_conformance(tier, seed=0):
     import shutil
     shutil.rmtree(workdir, ignore_errors=True)
     return res_all
+
+
+# ------------------------------------------------------------------------------------------------
+# B3': behaviours generated from the specification drive the real code (model-based test generation)
+# ------------------------------------------------------------------------------------------------
+EDGE = re.compile(r'^(-?\d+) -> (-?\d+) \[label="((?:[^"\\]|\\.)*)"')
+NODE0 = re.compile(r'^(-?\d+) \[label=.*style = filled\]')
+
+
+def walk_config(cls, tier):
+    q = tier == 'quick'
+    if cls == 'pess':
+        return ('w_t3o1' if q else 'w_t2o2', dict(MO='<- MOlearnt', Threads={1, 2, 3} if q else {1, 2}, MaxOps=1 if q else 2, WithHB=False), [])
+    if cls == 'opt':
+        return ('w_t2o1' if q else 'w_t2o2', dict(MO='<- MOlearnt', VHi=1, VLo=3, Retry=1, SetVers='<- SV', WithOpt=True, Threads={1, 2},
+                                                   MaxOps=1 if q else 2, WithHB=False), ['SV == {<<0, 0>>, <<0, 2>>}'])
+    return ('w_t2o1' if q else 'w_t2o2', dict(MO='<- MOlearnt', WithConv=True, Allowed='<- AllM', Threads={1, 2}, MaxOps=1 if q else 2,
+                                               NNodes=2 if q else 4, WithHB=False), ['AllM == [t \\in Threads |-> {"S", "SIX", "X"}]'])
+
+
+def parse_label(lab):
+    lab = lab.replace('\\"', '"')
+    m = re.match(r'(\w+)(?:\((.*)\))?$', lab)
+    if not m:
+        return lab, []
+    args = [a.strip().strip('"') for a in m.group(2).split(',')] if m.group(2) else []
+    return m.group(1), args
+
+
+def load_graph(dot):
+    """adjacency of TLC's state-graph dump: {state: [(label, next)]}, initial states"""
+    adj = {}
+    inits = []
+    with open(dot, errors='replace') as f:
+        for line in f:
+            m = EDGE.match(line)
+            if m:
+                a, b, lab = m.group(1), m.group(2), m.group(3)
+                if a != b:
+                    adj.setdefault(a, []).append((lab, b))
+                    adj.setdefault(b, [])
+                continue
+            m = NODE0.match(line)
+            if m:
+                inits.append(m.group(1))
+                adj.setdefault(m.group(1), [])
+    return adj, inits
+
+
+def cover_paths(adj, inits, max_paths, seed=0):
+    """paths from an initial state to a terminal state that together cover as many edges as the budget allows:
+    walk along uncovered edges; when none leaves the current state, take the shortest way to one (BFS)"""
+    import random, collections
+    rnd = random.Random(seed)
+    covered = set()
+    total = sum(len(v) for v in adj.values())
+    paths = []
+    stale = 0
+    while len(paths) < max_paths and len(covered) < total and stale < 50:
+        cur = inits[0]
+        path = []
+        before = len(covered)
+        steps = 0
+        while adj[cur] and steps < 400:
+            unc = [(k, e) for k, e in enumerate(adj[cur]) if (cur, k) not in covered]
+            if unc:
+                k, (lab, nx) = rnd.choice(unc)
+            else:
+                # BFS to the nearest state with an uncovered outgoing edge
+                prev = {cur: None}
+                dq = collections.deque([cur])
+                goal = None
+                while dq:
+                    u = dq.popleft()
+                    if any((u, k2) not in covered for k2 in range(len(adj[u]))) and u != cur:
+                        goal = u
+                        break
+                    for k2, (lab2, v) in enumerate(adj[u]):
+                        if v not in prev:
+                            prev[v] = (u, k2)
+                            dq.append(v)
+                if goal is None:
+                    k, (lab, nx) = rnd.choice(list(enumerate(adj[cur])))
+                else:
+                    chain = []
+                    u = goal
+                    while prev[u] is not None:
+                        chain.append(prev[u])
+                        u = prev[u][0]
+                    chain.reverse()
+                    for (u, k2) in chain[:-1] if False else chain:
+                        lab2, v = adj[u][k2]
+                        covered.add((u, k2))
+                        path.append(lab2)
+                        cur = v
+                        steps += 1
+                    continue
+            covered.add((cur, k))
+            path.append(lab)
+            cur = nx
+            steps += 1
+        paths.append(path)
+        stale = stale + 1 if len(covered) == before else 0
+    return paths, len(covered), total
+
+
+def model_walks(cls, tier, mo, seed=0):
+    """Generate behaviours of <Cls>Impl from TLC's state graph, run each on the real code (program + schedule) and return
+    the executions with the intended schedule; cached per source tree."""
+    import checks
+    bdir = vlib.build(4)
+    key = 'walk|%s|%s|%s|%s|%s' % (os.path.basename(bdir), cls, tier, json.dumps(mo, sort_keys=True), _spec_hash())
+    cp = _cache_path('walk', key)
+    if os.path.exists(cp):
+        return json.load(open(cp))
+    q = tier == 'quick'
+    tag, consts, defs = walk_config(cls, tier)
+    workdir = os.path.join(OUT, 'work', 'walk_%s.%d' % (cls, os.getpid()))
+    os.makedirs(workdir, exist_ok=True)
+    dump = os.path.join(workdir, 'graph')
+    t0 = time.time()
+    r = vlib.model_check(CLS_MODULE[cls], '%s_%s' % (cls, tag), consts, [vlib.mo_def(mo)] + defs, invariants=['Compat'], spec='Spec',
+                         workers=4, heap='8g', timeout=1500, workdir=workdir, extra=('-dump', 'dot,actionlabels', dump))
+    if not r['ok']:
+        raise InfraError('state-graph dump of %s failed: %s' % (cls, r['out'][-1500:]))
+    adj, inits = load_graph(dump + '.dot')
+    os.unlink(dump + '.dot')
+    paths, ncov, total = cover_paths(adj, inits, 1500 if q else 40000, seed)
+    progs = []
+    intended = {}
+    for k, path in enumerate(paths):
+        steps = [parse_label(lab) for lab in path]
+        prog, sched = cex_to_program(cls, steps)
+        if prog is None:
+            continue
+        name = 'walk_%s_%d' % (cls, k)
+        prog = prog.replace('P cex_%s %s' % (cls, cls), 'P %s %s sched=%s' % (name, cls, sched), 1)
+        progs.append(prog)
+        intended[name] = sched
+    files = vlib.run_harness(bdir, 'lockh', [cls], progs, workdir, mode='psched', tag='walk')
+    execs = [e for f in files for e in vlib.iter_execs(f)]
+    ptext = {p.split()[1]: p for p in progs}
+    status = {}
+    faithful = 0
+    for ex in execs:
+        status[ex.status] = status.get(ex.status, 0) + 1
+        want = intended.get(ex.prog, '')
+        nthreads = len(set(want.split(','))) if want else 0
+        if ex.status == 'ok' and ex.sched.startswith(want):
+            faithful += 1
+    # B1 + B2 on the resulting executions
+    okx = [e for e in execs if e.status not in ('steplimit', 'diverged', 'logfull')]
+
+    def proj1(ex):
+        if ex.status != 'ok':
+            return []
+        st, ok = (vlib.l2_stream_mcs(ex) if cls == 'mcs' else vlib.l2_stream(ex, cls))
+        if not ok:
+            return []
+        return [vlib.norm_l2(x, cls) for x in st if x['e'] in ('call', 'op', 'ret', 'setv', 'texit') and not (cls != 'mcs' and x['e'] == 'texit')]
+    g1 = [g for g in vlib.dedup_histories(okx, proj1) if g[0]]
+    mod = CLS_MODULE[cls]
+    rej1, st1 = vlib.validate_until_clean(os.path.join(SPEC, mod + 'Trace.tla'), os.path.join(SPEC, 'cfg', mod + 'Trace.cfg'),
+                                          [g[0] for g in g1], workdir, 'walkb1', max_rounds=2)
+    sw = ['CkCompat', 'CkProgress', 'CkGuards', 'CkConvAtomic'] + (['CkOptimistic', 'CkVersion', 'CkPrepare'] if cls == 'opt' else []) + \
+         (['CkFifo'] if cls == 'mcs' else [])
+    g2 = vlib.dedup_histories(okx, lambda ex: vlib.api_history(ex, fifo=(cls == 'mcs')))
+    cfg = checks.lock_cfg(sw, workdir, 'walkabs')
+    rej2, st2 = vlib.validate_until_clean(os.path.join(SPEC, 'LockAbsTrace.tla'), cfg, [g[0] for g in g2], workdir, 'walkb2', max_rounds=2)
+    res = {'cls': cls, 'config': tag, 'model_states': r['distinct'], 'model_edges': total, 'edges_on_generated_paths': ncov,
+           'paths': len(paths), 'programs_run': len(execs), 'exec_status': status, 'followed_intended_schedule': faithful,
+           'b1_streams': len(g1), 'b1_rejected': [{'program': ptext[g1[x['hist']][1].prog], 'schedule': g1[x['hist']][1].sched, 'line': x['line']}
+                                                 for x in rej1[:5]],
+           'b2_histories': len(g2), 'b2_switches': sw,
+           'b2_rejected': [{'program': ptext[g2[x['hist']][1].prog], 'schedule': g2[x['hist']][1].sched, 'line': x['line'],
+                            'event': (g2[x['hist']][0][x['line']] if x['line'] < len(g2[x['hist']][0]) else None)} for x in rej2[:5]],
+           'states': st1['distinct'] + st2['distinct'], 'transitions': st1['states'] + st2['states'],
+           'events': st1['events'] + st2['events'], 'wall': round(time.time() - t0, 1),
+           'sample': {'path': paths[0][:24], 'program': progs[0] if progs else None}}
+    json.dump(res, open(cp, 'w'))
+    import shutil
+    shutil.rmtree(workdir, ignore_errors=True)
+    return res
